@@ -2,6 +2,12 @@
 and the signature function that labels a failing case for known_findings.jsonl."""
 
 PROPS = {
+    'C20': {
+        'families': [('c20', 80, 800)],
+        'rule': 'random sequences of OnPut registrations (plain / once-only), Has, Put, Close (incl. repeated Close and calls after Close) over path and stream targets x CARv1/CARv2 options; after EVERY step: the bytes on the stream or the existence and bytes of the file, the call result and the list of callbacks fired; distinct = distinct script text',
+        'trusted': ['os.OpenFile(O_CREATE|O_TRUNC) semantics (file appears at first Put)'],
+        'assumptions': [],
+    },
     'C06': {
         'families': [('c06', 12, 120)],
         'rule': 'writing sessions (open or resume-from-an-earlier-session, 1-3 puts, optional Finalize) over the option grid x {blockstore.OpenReadWrite on a real file with the verif write hook, storage.OpenReadableWritable on a recording in-memory file}; the REAL write trace is recorded and compared with the model\'s write list; for EVERY write boundary and every byte offset inside every write (sampled for writes longer than 24 bytes at quick tier) the crash image is built, reopened with the real library, queried (Has/Get of every acknowledged block, index contents), continued (one more put + Finalize) and the result decoded by the verifying block reader; plus the corpus construction of known finding D5; distinct = distinct script text',
@@ -88,6 +94,8 @@ def signature(pid, script, I, S):
         if 'flip' in toks:
             return 'C02/corruption-not-reported'
         return 'C02/unsound-block-returned'
+    if pid == 'C20':
+        return 'C20/' + fam + '-differs-from-lazy-direct-writer'
     if pid == 'C06':
         tr = toks.get('trace', '-').split(',')
         n, k = len(tr), int(toks.get('k', '0'))
